@@ -129,6 +129,8 @@ func sortOf(t types.Type) *Sort {
 			return floatSort
 		case u.Info()&types.IsString != 0:
 			return SStr
+		case u.Info()&types.IsComplex != 0:
+			return SCplx
 		case u.Kind() == types.UntypedNil:
 			return SInt
 		}
@@ -164,6 +166,8 @@ func zeroOf(t types.Type) *Term {
 		return StrLit("")
 	case SSlice:
 		return NilSlice
+	case SCplx:
+		return Var("cplx_zero", SCplx)
 	}
 	unsupp("zero value of type %s", t)
 	return nil
